@@ -356,6 +356,110 @@ func c01ConcRun(c c01Conc) error {
 }
 
 // ---------------------------------------------------------------------------
+// call-site consistency (quick tier): the first bounded draw a generator
+// announces must treat raw words exactly as the swept primitive does for the
+// announced bound - same accept/redraw decision, and an output that is a
+// function of the primitive's result. Checked on the windows where rejection
+// thresholds live (top and bottom of the 32-bit range) plus scattered words.
+
+type c01Site struct {
+	Words  []string `json:"words,omitempty"` // wordlist input (with duplicates / twins); nil = character recipe
+	Chars  string   `json:"chars,omitempty"`
+	Scheme string   `json:"scheme,omitempty"`
+	Length int      `json:"length"`
+	Key    uint64   `json:"key"`
+}
+
+func c01SiteRun(c c01Site) error {
+	var g func() (*spg.Password, error)
+	window := uint64(1) << 14
+	if c.Words != nil {
+		wl, err := spg.NewWordList(append([]string{}, c.Words...))
+		if err != nil {
+			return &ev.Skip{Why: "empty"}
+		}
+		r := spg.NewWLRecipe(c.Length, wl)
+		r.Capitalize = spg.CapScheme(c.Scheme)
+		g = r.Generate
+	} else {
+		r := spg.CharRecipe{Length: c.Length, AllowChars: c.Chars}
+		g = r.Generate
+		window = 1 << 9
+	}
+	// learn the bound of the first draw and a continuation
+	probe := callForced(nil, func(k int, n uint32) uint32 { return uint32(ev.Mix64(c.Key, uint64(k)) % uint64(n)) }, c.Key, g)
+	if probe.Pw == nil || len(probe.S.Draws) == 0 {
+		return &ev.Skip{Why: "no draw"}
+	}
+	n := probe.S.Draws[0].Bound
+	cont := make([]uint32, len(probe.S.Draws))
+	for i, d := range probe.S.Draws {
+		cont[i] = d.Choice
+	}
+	byIdx := map[uint32]string{}
+	byOut := map[string]uint32{}
+	var vs []uint64
+	for i := uint64(0); i < window; i++ {
+		vs = append(vs, i, 1<<32-1-i, uint64(uint32(ev.Mix64(c.Key, i))))
+	}
+	for _, v64 := range vs {
+		v := uint32(v64)
+		want, consumed, ok := enum.Probe(n, v, 4*66)
+		if !ok {
+			return &ev.Inc{Why: "probe failed"}
+		}
+		accepted := consumed == 4
+		// the generator: first word v, afterwards forced representatives of the continuation
+		s := &enum.Session{Tape: &tape.Tape{TailKey: c.Key | 1}, Force: true, Cont: func(k int, m uint32) uint32 { return cont[k%len(cont)] % m }}
+		first := true
+		s.Cont = func(k int, m uint32) uint32 { return cont[k%len(cont)] % m }
+		var pw *spg.Password
+		s.Run(func() {
+			// serve v as the very first word: the observer pushes a representative
+			// for draw 0; override it afterwards
+			pw, _ = func() (*spg.Password, error) {
+				old := spg.VerifDrawObserver
+				spg.VerifDrawObserver = func(m uint32) {
+					old(m)
+					if first {
+						first = false
+						s.Tape.PushWord(v)
+					}
+				}
+				defer func() { spg.VerifDrawObserver = old }()
+				return g()
+			}()
+		})
+		if s.Panic != nil || pw == nil || len(s.Draws) == 0 {
+			return fmt.Errorf("generation with first raw word %#x failed (panic %v)", v, s.Panic)
+		}
+		gotAccepted := s.Draws[0].Bytes == 4
+		if gotAccepted != accepted {
+			return fmt.Errorf("raw word %#x for a draw announced as 1-of-%d: the generator %s it, the bounded draw itself %s it (a rejection threshold that does not belong to this bound)", v, n, map[bool]string{true: "accepted", false: "redrew"}[gotAccepted], map[bool]string{true: "accepts", false: "redraws"}[accepted])
+		}
+		if !accepted {
+			continue
+		}
+		out := tokKey(toToks(pw.Tokens()))
+		if o, seen := byIdx[want]; seen && o != out {
+			return fmt.Errorf("raw words with the same result %d of the bounded draw (1-of-%d) give different passwords: %q and %q", want, n, o, out)
+		}
+		byIdx[want] = out
+		// the converse needs every alternative of the first draw to be visible in
+		// the output: word or character draws, not capitalisation of words that
+		// do not change under title-casing
+		if j, seen := byOut[out]; seen && j != want && (c.Words == nil || c.Scheme == "none") {
+			return fmt.Errorf("raw words with different results %d and %d of the bounded draw give the same password %q", j, want, out)
+		}
+		byOut[out] = want
+	}
+	ev.Leaves(int64(len(vs)))
+	ev.Class("call_site_consistency")
+	ev.NonTrivial(fmt.Sprintf("site|%v|%s|%s|%d", c.Words, c.Chars, c.Scheme, c.Length))
+	return nil
+}
+
+// ---------------------------------------------------------------------------
 // generator-level sweep (thorough tier): all 2^32 first words through a real
 // call site - a one-word generation from a list given with duplicates and
 // capitalised twins - so that "every generator draws through the swept
@@ -719,6 +823,17 @@ func TestC01(t *testing.T) {
 		return
 	}
 	ev.Check(t, "c01_sampled", ev.N(40000, 2000000), c01Gen, c01Run)
+	ev.Check(t, "c01_call_sites", ev.N(64, 640), func(t *rapid.T) c01Site {
+		c := c01Site{Key: rapid.Uint64().Draw(t, "key"), Length: rapid.IntRange(1, 3).Draw(t, "length")}
+		if rapid.IntRange(0, 3).Draw(t, "kind") == 0 {
+			n := rapid.IntRange(2, 9).Draw(t, "nchars")
+			c.Chars = "abcdefghijk"[:n]
+			return c
+		}
+		c.Words = gen.WordList(t, gen.WordListOpts{Min: 2, Max: 14})
+		c.Scheme = rapid.SampledFrom([]string{"none", "one", "random"}).Draw(t, "scheme")
+		return c
+	}, c01SiteRun)
 	ev.Check(t, "c01_concurrent", ev.N(160, 3200), func(t *rapid.T) c01Conc {
 		pick := func(l string) uint32 {
 			switch rapid.IntRange(0, 3).Draw(t, l+"_class") {
